@@ -118,6 +118,33 @@ def gen_cases(tier, rng):
                     for extra in ([], ['multi']):
                         cases.append('H:f=0 arg:c,cont:%s0:%s %s kind:container-overflow'
                                      % (kind, '/'.join([card] + extra), A.argv_tok(w)))
+    # position destinations (vector<bool>, bitset) with huge positions: "position + 1" and the growth computation
+    # must not wrap (found on the unchanged tree: -v 18446744073709551615 wrote outside the vector; repaired)
+    for v in ('18446744073709551615', '18446744073709551614', '9223372036854775808', '9223372036854775807', '1000000', '100000', '-1',
+              '00018446744073709551615', '18446744073709551616', '99999999999999999999'):
+        for kind in ('vb', 'bs'):
+            for opts in ([], ['fmt=lower']):
+                cases.append('H:f=0 arg:c,cont:%s0:%s %s kind:container-overflow' % (kind, '/'.join(opts), A.argv_tok(['-c', v])))
+                cases.append('H:f=0 arg:c,cont:%s0:%s %s kind:container-overflow' % (kind, '/'.join(opts), A.argv_tok(['-c', '3,' + v])))
+    # (a position that is representable but needs more memory than there is ends the instrumented run in the
+    # allocator of the sanitizer - counted as "resource limit", no verdict: two cases only)
+    cases.append('H:f=0 arg:c,cont:vb0: %s kind:container-overflow' % A.argv_tok(['-c', '1000000000000']))
+    cases.append('H:f=0 arg:c,cont:vb0: %s kind:container-overflow' % A.argv_tok(['-c', '4611686018427387904']))
+    # every short word over the characters that steer the argument iterator ("-", "=", a flag, a value argument, a
+    # character nobody knows), alone and followed by a further word: the positions the iterator remembers inside
+    # a word (value behind "=", rest of a group of flags) must stay inside the word
+    import itertools as _it
+    for L in range(1, 6 if tier == 'quick' else 7):
+        for t in _it.product('-=axq', repeat=L):
+            w = '-' + ''.join(t)
+            if tier == 'quick' and L == 5 and (sum(map(ord, w)) % 3):
+                continue
+            for tail in ([], ['v']):
+                cases.append('H:f=0 arg:a:b0:init=0 arg:x,xlong:i0: arg:-:s0: %s kind:iterator-words' % A.argv_tok([w] + tail))
+    for w in ('-a-x=', '-a--xlong=', '-a-=', '-a--=', '-aa-x=', '-a-x=5', '-a--xlong=5', '--xlong=', '--=', '-=', '-a=', '-x=', '-ax='):
+        for tail in ([], ['v'], ['-a'], ['--']):
+            cases.append('H:f=0 arg:a:b0:init=0 arg:x,xlong:i0: %s kind:iterator-words' % A.argv_tok([w] + tail))
+            cases.append('H:f=0 arg:a:b0:init=0 arg:x,xlong:s0: arg:-:s1: %s kind:iterator-words' % A.argv_tok([w] + tail))
     # range-string destinations (bitset of 1024 positions in a heap block of its own, vector): positions at and
     # beyond the size, ranges across the end, huge values, malformed ranges (sanitizers only)
     for v in ('0', '1023', '1024', '1025', '1020-1030', '3,5000', '1087', '1088', '2048', '65536', '4294967296', '999999999999999999', '5-3', '1-', '-1', '1--2', '1,,2', '1-3[2]', '1-10{3,4}', '', 'a', '1000-1100[10]'):
@@ -201,6 +228,17 @@ def gen_cases(tier, rng):
                  % (A.hx('--arg-file f2.pa\n'), A.hx('--arg-file plain.pa\n--arg-file f1.pa\n')))
     cases.append(af + plain + 'xfile:66312e7061:%s argv:2d2d6172672d66696c65,706c61696e2e7061,2d2d6172672d66696c65,66312e7061 kind:arg-file-nesting'
                  % A.hx('--arg-file plain.pa\n--arg-file f1.pa\n'))
+    # lines of blanks / tabs only, empty lines and indented comments in a file, behind short and behind long lines
+    # (the line buffer is then on the heap)
+    longline = '-i 5 ' + '--verbose ' * 4
+    for body in ('   \n', '\t\n', ' \t \n', '\n', '  # indented comment\n', ' \n#\n \n', '     ', '\t'):
+        for pre in ('', '-i 1\n', longline + '\n', longline + '\n-i 2\n'):
+            for post in ('', '-i 9\n'):
+                content = pre + body + post
+                cases.append('H:f=0 arg:i:i0:card=none arg:verbose:b0:init=0/card=none arg:arg-file:af0:card=none xfile:%s:%s argv:2d2d6172672d66696c65,66312e7061 kind:file-blank-lines'
+                             % (A.hx('f1.pa'), A.hx(content)))
+                cases.append('H:f=16 prog:%s arg:i:i0:card=none arg:verbose:b0:init=0/card=none file:%s argv:- kind:file-blank-lines'
+                             % (A.hx('pblank'), A.hx(content)))
     # a directory where an argument file is expected: nothing to read, the evaluation must come back
     cases.append('H:f=0 arg:v:b0:init=0 arg:arg-file:af0: xdir:%s argv:2d2d6172672d66696c65,6431 kind:directory-as-file' % A.hx('d1'))
     cases.append('H:f=0 arg:v:b0:init=0 arg:arg-file:af0: xdir:%s argv:2d2d6172672d66696c653d6431,2d76 kind:directory-as-file' % A.hx('d1'))
